@@ -895,7 +895,7 @@ namespace plan
         }
     };
 
-    inline std::string tuneParams(vf::Src &s, const ob::PlannerPtr &pl, int per256 = 150)
+    inline std::string tuneParams(vf::Src &s, const ob::PlannerPtr &pl, int per256 = 150, int perParam256 = 160)
     {
         std::string log;
         if (!s.chance(per256))
@@ -917,7 +917,7 @@ namespace plan
             const std::string sug = pl->params().getParam(nm)->getRangeSuggestion();
             if (sug.empty())
                 continue;
-            if (!s.chance(160))
+            if (!s.chance(perParam256))
                 continue;
             std::string val;
             if (sug == "0,1")
